@@ -64,6 +64,14 @@ fn generate(seed: u64, tier: Tier, em: &mut Emitter) {
             }
         }
     }
+    // group_by_key (plain, lifted-combine, distinct_per_key) on either side of a join
+    for (src, steps, parts) in join_side_barrier_cases(&mut rng, tier != Tier::Quick) {
+        let uses_gbk = |ss: &[Step]| ss.iter().any(|s| matches!(s, Step::GroupByKey | Step::DistinctPerKey));
+        let inside = steps.iter().any(|s| matches!(s, Step::Join(_, rs, _) if uses_gbk(rs)));
+        if uses_gbk(&steps) || inside {
+            emit_prog(em, &src, &steps, Mode::Par(parts), true, &["sweep", "join_side_barrier"]);
+        }
+    }
     let mut rng = seed_mix(seed, 0xC04_0002);
     let count = if tier == Tier::Quick { 1100 } else { 8000 };
     let mut made = 0;
